@@ -179,8 +179,6 @@ Proof.
         repeat split; congruence.
       + destruct (ev_step_inv e1 a e2 ch k Hwf Hi Ha) as [s [Hs [_ [Hc2 [Hwf2 [_ [_ Hi2]]]]]]].
         assert (Ech : ev_chosen_step (e_expl e0) ch (EStep a) = s :: ch) by (simpl; rewrite <- Eexpl, Hs; reflexivity).
-        change (fold_left (ev_chosen_step (e_expl e0)) tr (ev_chosen_step (e_expl e0) ch (EStep a))) with
-               (fold_left (ev_chosen_step (e_expl e0)) tr (ev_chosen_step (e_expl e0) ch (EStep a))).
         try rewrite Ech. apply (IH e2); auto.
         destruct Hc as [A [B [C [D [E F]]]]]. destruct Hc2 as [A' [B' [C' [D' [E' F']]]]].
         repeat split; congruence.
